@@ -10,6 +10,7 @@ import (
 
 	"github.com/ory/keto/internal/check/checkgroup"
 	"github.com/ory/keto/internal/relationtuple"
+	"github.com/ory/keto/internal/x/graph"
 	"github.com/ory/keto/ketoapi"
 )
 
@@ -51,7 +52,7 @@ func and(ctx context.Context, checks []checkgroup.CheckFunc) checkgroup.Result {
 	}
 
 	for _, check := range checks {
-		check(ctx, resultCh)
+		check(graph.ResetVisited(ctx), resultCh)
 		select {
 		case result := <-resultCh:
 			// We return fast on either an error or if a subcheck returns "not a
